@@ -65,7 +65,7 @@ var vfmNames = []string{"cam", "cam1", "dog"}
 var vfmKeyName = map[string]string{
 	"cam": "cam",
 	"R1":  "~^cam(.*)$",
-	"R2":  "~^(c)(am.*)$",
+	"R2":  "~^cam1?(.*)$",
 	"AO":  "all_others",
 }
 
@@ -95,7 +95,7 @@ func vfmBuild(cm map[string]vfmConf) map[string]*conf.Path {
 		case "R1":
 			pc.Regexp = regexp.MustCompile("^cam(.*)$")
 		case "R2":
-			pc.Regexp = regexp.MustCompile("^(c)(am.*)$")
+			pc.Regexp = regexp.MustCompile("^cam1?(.*)$")
 		case "AO":
 			pc.Regexp = regexp.MustCompile("^.*$")
 		}
@@ -415,7 +415,7 @@ func TestVerif_C15_Replay(t *testing.T) {
 	vfmInstallHooks()
 	// cross-check the spec's regular-expression table (PathManagerMC.tla MatchDef) with Go's regexp
 	expect := map[string]map[string][]string{
-		"R2": {"cam": {"c", "am"}, "cam1": {"c", "am1"}, "dog": nil},
+		"R2": {"cam": {""}, "cam1": {""}, "dog": nil},
 		"R1": {"cam": {""}, "cam1": {"1"}, "dog": nil},
 		"AO": {"cam": {}, "cam1": {}, "dog": {}},
 	}
@@ -438,6 +438,14 @@ func TestVerif_C15_Replay(t *testing.T) {
 					}
 				}
 			}
+		}
+	}
+	// resolution order assumed by the spec (R1 before R2): ask the real resolver
+	{
+		both := vfmBuild(map[string]vfmConf{"R1": {0, 0}, "R2": {0, 0}})
+		pc, _, err := conf.FindPathConf(both, "cam1")
+		if err != nil || pc.Name != vfmKeyName["R1"] {
+			t.Fatalf("verif: the resolver does not prefer R1 over R2 as the spec's RegexOrderDef assumes")
 		}
 	}
 	init := map[string]vfmConf{"cam": {0, 0}, "R1": {0, 0}, "R2": {-1, -1}, "AO": {-1, -1}}
